@@ -765,6 +765,55 @@ func c19Examples(c *Ctx) {
 	out0 := buildV2(v1.payload, 0, 0, 0, false)
 	emitCli(c, "filter", VL{VL{VB(b2.Cid.Bytes()), VB(bi.Cid.Bytes())}, VN(0), VN(2), VN(1)}, VL{VB(v2.file), VB(out0)}, VL{v2.desc(), v1.desc()}, true)
 	c.Count("examples:theorem-instance")
+	c19ExampleDag(c)
+}
+
+// c19ExampleDag: R = [X, M], X = [M], M = [L] (dag-cbor lists of links, sha2-256) with the depth-limited
+// selector of depth 3: the walk reaches M first through X, where the limit stops it, and then directly,
+// from where L is still selected -- both versions of `car get-dag` must deliver R X M L.
+func c19ExampleDag(c *Ctx) {
+	mk := func(n datamodel.Node) *dnode {
+		d := encCbor(n)
+		return &dnode{c: mkCid(1, cid.DagCBOR, mh.SHA2_256, -1, d), data: d}
+	}
+	list := func(kids ...*dnode) *dnode {
+		n, err := qp.BuildList(basicnode.Prototype.Any, int64(len(kids)), func(la datamodel.ListAssembler) {
+			for _, k := range kids {
+				qp.ListEntry(la, qp.Link(cidlink.Link{Cid: k.c}))
+			}
+		})
+		if err != nil {
+			panic(err)
+		}
+		return mk(n)
+	}
+	leaf := mk(basicnode.NewString("leaf"))
+	mid := list(leaf)
+	deep := list(mid)
+	root := list(deep, mid)
+	store := map[string][]byte{}
+	var blks []Blk
+	for _, n := range []*dnode{root, deep, mid, leaf} {
+		blks = append(blks, Blk{n.c, n.data})
+		store[n.c.KeyString()] = n.data
+	}
+	payload := refPayload([]cid.Cid{root.c}, blks)
+	file := buildV2(payload, 0, 0, 3, false)
+	spec := selSpec{kind: 1, depth: 3}
+	var buf bytes.Buffer
+	if err := dagjson.Encode(spec.node(), &buf); err != nil {
+		panic(err)
+	}
+	w, ok := refGetDagV2(store, root.c, spec.node(), false, false)
+	emitCli(c, "getdag", VL{VN(2), VT("none"), VB(buf.Bytes()), VN(0), traceVal(w, ok)}, VL{VB(file), VT("none")}, VL{VB(root.c.Bytes())}, true)
+	tc := &travCase{roots: []cid.Cid{root.c}, sels: []selSpec{spec}, opts: travOpts{dups: true}}
+	tr := refWalkDags(store, tc).(VL)[0].(VL)
+	ls := VL{}
+	for _, l := range tr[0].(VL) {
+		ls = append(ls, VL{l.(VL)[0], l.(VL)[1]})
+	}
+	emitCli(c, "getdag", VL{VN(1), VB(root.c.Bytes()), VB(buf.Bytes()), VN(0), VL{ls, tr[1]}}, VL{VB(file), VT("none")}, VL{VB(root.c.Bytes())}, true)
+	c.Count("examples:get-dag-shared-block")
 }
 
 func init() {
